@@ -816,6 +816,14 @@ func splitInlineBox(context *layoutContext, box_ Box, positionX, maxX, bottomSpa
 	rightSpacing := box.PaddingRight.V() + box.MarginRight.V() + box.BorderRightWidth.V()
 	contentBoxLeft := positionX
 
+	// The children are laid out from positionX and only translated by
+	// leftSpacing afterwards (see translationNeeded below): when the box
+	// starts on this line, they have that much less room.
+	if bo.InlineT.IsInstance(box_) && (box.Style.GetBoxDecorationBreak() == "clone" ||
+		(box.Style.GetDirection() == "ltr" && isStart)) {
+		maxX -= leftSpacing
+	}
+
 	if box.Style.GetPosition().String == "relative" {
 		absoluteBoxes = &[]*AbsolutePlaceholder{}
 	}
